@@ -705,6 +705,9 @@ pub fn check_state(cfg: &Cfg, sres: &StateRes, en: &BTreeSet<&'static str>, c: &
         if let Some(f) = iter_dead(cfg, p) {
             out.push(f);
         }
+        if let Some(f) = iter_alias(cfg, p) {
+            out.push(f);
+        }
         out.push(Finding::new("C14", "iterator_words", p.split(':').next().unwrap_or("").to_string(), format!("{} in state {}", p, show(cfg, snap))));
     }
     if let Some(after) = &sres.snap_after_iters {
@@ -1045,6 +1048,9 @@ pub fn check_trans(cfg: &Cfg, pre: &Snap, probe: &Probe, op: Op, t: &TransRes, e
             if let Some(f) = iter_dead(cfg, p) {
                 out.push(f);
             }
+            if let Some(f) = iter_alias(cfg, p) {
+                out.push(f);
+            }
             out.push(Finding::new("C14", "iterator_words_after_transition", p.split(':').next().unwrap_or("").to_string(), format!("{} — in the object built by {:?}", p, op)));
         }
         return out;
@@ -1054,6 +1060,9 @@ pub fn check_trans(cfg: &Cfg, pre: &Snap, probe: &Probe, op: Op, t: &TransRes, e
             out.push(f);
         }
         if let Some(f) = iter_dead(cfg, p) {
+            out.push(f);
+        }
+        if let Some(f) = iter_alias(cfg, p) {
             out.push(f);
         }
         out.push(Finding::new("C14", "iterator_words_after_transition", p.split(':').next().unwrap_or("").to_string(), format!("{} — in the object reached by {}", p, ctx(Some(post)))));
@@ -1426,6 +1435,15 @@ pub fn owns(prop: &str, f: &Finding) -> bool {
 fn iter_panic(cfg: &Cfg, problem: &str) -> Option<Finding> {
     let m = problem.strip_prefix("iterator check panicked: ")?;
     Some(Finding::new("C05", "no_panic", format!("{:?}:iterator:{}", cfg.kind, crate::panics::location_of(m)), format!("an iterator panicked while being driven from both ends: {}", m)))
+}
+
+/// a *mutable* iterator that yields an entry twice has handed out two live `&mut` to one value (C19, at run time)
+fn iter_alias(cfg: &Cfg, problem: &str) -> Option<Finding> {
+    let fam = problem.split(':').next().unwrap_or("");
+    if fam.contains("mut") && problem.contains("a second live reference to the same entry") {
+        return Some(Finding::new("C19", "no_two_live_mutable_references_at_run_time", format!("{:?}/{}", cfg.kind, fam), format!("safe code obtains two live `&mut` to the same cached value: {}", problem)));
+    }
+    None
 }
 
 /// an iterator that yields something that is not a live key/value object has read memory it must not read (C03)
